@@ -301,6 +301,39 @@ def r12_every_chunk_reaches_the_framer(ck, cx, rule='R12'):
     ck.floor(rule, n, 1, 'normally returning paths of dataReceived')
 
 
+def r13_fifo_pickup_ignores_its_argument(ck, cx, rule='R13'):
+    """connectionLost() walks `list(self.transaction)` and calls getTransaction(x) for every x.  Iterating the keyed manager yields
+    transaction ids; iterating the FIFO manager yields the STORED OBJECTS (the deferreds).  So FifoTransactionManager.getTransaction
+    is called with a deferred on that path, and may do nothing with its argument that needs a number: `%d` formatting or
+    arithmetic on it raises TypeError before anything is popped, and no pending deferred is ever failed."""
+    ck.rule(rule, 'FifoTransactionManager.getTransaction treats its argument as opaque (connectionLost hands it the stored deferreds): no %d-style formatting of, arithmetic on or indexing by the argument')
+    k = cx.idx.cls('pymodbus.transaction.FifoTransactionManager')
+    f = cx.method(k, 'getTransaction')
+    ck.saw('functions', f.qn)
+    tid = f.params[1] if len(f.params) > 1 else None
+    bad = None
+    for x in ast.walk(f.node):
+        if tid is None:
+            break
+        uses = lambda e: any(isinstance(n_, ast.Name) and n_.id == tid for n_ in ast.walk(e))
+        if isinstance(x, ast.BinOp) and isinstance(x.op, ast.Mod) and isinstance(x.left, ast.Constant) and isinstance(x.left.value, str) and uses(x.right):
+            import re as _re
+            if _re.search(r'%[-+ 0#]*\d*(?:\.\d+)?[diouxXeEfFgGc]', x.left.value):
+                bad = (x, 'formats it with `%s`' % x.left.value[:40])
+        elif isinstance(x, ast.BinOp) and not isinstance(x.op, ast.Mod) and (uses(x.left) or uses(x.right)):
+            bad = (x, 'does arithmetic on it')
+        elif isinstance(x, ast.Subscript) and uses(x.slice):
+            bad = (x, 'indexes with it')
+        elif isinstance(x, ast.Call) and isinstance(x.func, ast.Attribute) and x.func.attr == 'format' and isinstance(x.func.value, ast.Constant) and any(uses(a_) for a_ in x.args):
+            import re as _re
+            if _re.search(r'\{[^}]*:[^}]*[dxXobeEfFgGn]\}', str(x.func.value.value)):
+                bad = (x, 'formats it with `%s`' % str(x.func.value.value)[:40])
+    ck.ob(rule, f.qn, 'the argument is not used as a number', bad is None, detail='fifo-pickup-needs-a-number', loc=cx.floc(f, bad[0]) if bad else cx.floc(f),
+          message='FifoTransactionManager.getTransaction %s: connectionLost() of the serial client calls it with the stored deferreds (that is what iterating the FIFO manager yields), '
+                  'so the call raises TypeError and no outstanding deferred is failed when the connection is lost' % (bad[1] if bad else ''))
+    ck.floor(rule, 1, 1, 'FIFO pickup method')
+
+
 def run(ck, tier):
     cx = Ctx()
     ck.rule('R1', 'execute: id from getNextTID assigned before buildPacket; deferred registered under that id')
@@ -370,4 +403,5 @@ def run(ck, tier):
     ck.guard(_own3.rule_instance_owned, ck, cx, 'R10', _own3.TWISTED_CLIENTS, 'the receive buffer and the pending-request table of one connection are used by every other connection of the process (a fragment left by one shifts the replies of all)', 3, None, ('framer', 'transaction'))
     ck.guard(r11_client_admits_every_reply, ck, cx)
     ck.guard(r12_every_chunk_reaches_the_framer, ck, cx)
+    ck.guard(r13_fifo_pickup_ignores_its_argument, ck, cx)
     return cx.idx
